@@ -189,7 +189,8 @@ def check(ctx):
         for n in node_in(fcfg, stmt_of(c)):
             facts = facts_at(fcfg, n)
         txt = facts_text(facts)
-        empty = any(pol and isinstance(e, ast.Compare) and "size" in unparse(e.left).lower() and isinstance(e.ops[0], ast.Eq) and const_value(e.comparators[0]) == 0 for e, pol in facts)
+        SIZE = names_bound_to_call(files_fn, lambda nm_: nm_ in ("os.path.getsize",) or nm_.endswith(".st_size"), fdefs)
+        empty = any(pol and isinstance(e, ast.Compare) and (unparse(e.left) in SIZE or "size" in unparse(e.left).lower()) and isinstance(e.ops[0], ast.Eq) and const_value(e.comparators[0]) == 0 for e, pol in facts)
         # lock filter: false edge of a test mentioning only_unlocked and "locked"
         lock = False
         for test, pol in fcfg.guards(node_in(fcfg, stmt_of(c))[0]):
